@@ -77,6 +77,33 @@ Theorem C15_operations_keep_heap : heap_ok [] /\ forall l o, heap_ok l -> heap_o
 Proof. exact (conj heap_ok_nil pqstep_heap). Qed.
 
 
+(* the same three statements for a consumer that first calls Pop any number of times (taking what is
+   there without blocking) and only then waits: Pop and WaitForItem can be mixed on one queue *)
+Theorem C15_pop_then_wait :
+  (forall cap pp items want wc s,
+     1 <= cap -> reachable cap (init_pop pp items want wc) s ->
+     c_pc s = CParked -> q s <> [] ->
+     exists i s', mtx s = ByProd i false /\ pstep cap s i = [s'] /\ c_pc s' = CWantLock) /\
+  (forall cap pp items want wc s,
+     1 <= cap -> reachable cap (init_pop pp items want wc) s ->
+     (forall i b, mtx s <> ByProd i b) -> c_pc s = CParked -> q s = []) /\
+  (forall cap pp items want wc s,
+     1 <= cap -> reachable cap (init_pop pp items want wc) s ->
+     pushed s = popped s ++ q s /\ popped s = rev (somes (c_got s)) ++ pending_ret (mtx s)).
+Proof. exact (conj no_lost_wakeup_pop (conj never_stuck_pop fifo_exactly_once_pop)). Qed.
+
+(* ... and it depends on every Add signalling: with an Add that does not signal (the seeded shape:
+   signal only when the length becomes 1, which a draining Pop does not restore), Pop once, wait, and
+   the second Add leaves the consumer parked with an item queued *)
+Theorem C15_pop_then_wait_needs_the_signal :
+  exists s,
+    fold_left (fun ss t => flat_map (fun s => if (t =? 0)%N then cstep s else if (t =? 7)%N then pstep_nosignal s 0 else pstep 1 s 0) ss)
+              [1; 1; 1; 1; 0; 0; 0; 0; 0; 0; 0; 0; 0; 1; 7; 1]%N [init_pop 1 [[1; 2]] 1 false] = [s] /\
+    c_pc s = CParked /\ q s = [2] /\ mtx s = Free /\ cancelled s = false.
+Proof. exact pop_then_wait_needs_the_signal. Qed.
+
+Print Assumptions C15_pop_then_wait.
+Print Assumptions C15_pop_then_wait_needs_the_signal.
 Print Assumptions C15_no_lost_wakeup.
 Print Assumptions C15_never_stuck.
 Print Assumptions C15_fifo_exactly_once.
